@@ -497,6 +497,7 @@ func (m *Manager) acquireTasks(envId uid.ID, taskDescriptors Descriptors) (err e
 	undeployableCriticalDescriptors := make(Descriptors, 0)
 
 	deployedTasks := make(DeploymentMap)
+	deployMuLocked := false
 	if len(tasksToRun) > 0 {
 		// Alright, so we have some descriptors whose requirements should be met with
 		// new Tasks we're about to deploy here.
@@ -504,6 +505,7 @@ func (m *Manager) acquireTasks(envId uid.ID, taskDescriptors Descriptors) (err e
 		// the offers, we ask Mesos to run the required roles - if any.
 
 		m.deployMu.Lock()
+		deployMuLocked = true
 
 	DEPLOYMENT_ATTEMPTS_LOOP:
 		for attemptCount := 0; attemptCount < MAX_ATTEMPTS_PER_DEPLOY_REQUEST; attemptCount++ {
@@ -626,7 +628,9 @@ func (m *Manager) acquireTasks(envId uid.ID, taskDescriptors Descriptors) (err e
 		}
 	}
 
-	m.deployMu.Unlock()
+	if deployMuLocked {
+		m.deployMu.Unlock()
+	}
 
 	if !deploymentSuccess {
 		var deployedTaskIds []string
